@@ -241,6 +241,8 @@ func c02Spaces(tier string) []*explore.Space {
 			hostSpace("P4xT4", "two predicates, nested predicates x T(<=4)", p4, t4, "C02"),
 			hostSpace("P5xT4", "existence of two-step paths over all 144 axis pairs, paths with a nested predicate on the last step x T(<=4)", p5, t4, "C02"),
 			hostSpace("P6xT4", "comparisons with two candidate-dependent operands (count vs count, path vs path) x T(<=4)", p6, t4, "C02"),
+			hostSpace("P1xDeep7", "step[atom] x spine documents of depth 4..7", p1, func() []*doc.Tree { return uniDeep(7) }, "C02"),
+			hostSpace("P5/4xDeep6", "fixed stratum of two-step existence / nested predicates x spine documents", strideCases(p5, 4), func() []*doc.Tree { return uniDeep(6) }, "C02"),
 		}
 	}
 	// quick: P2 restricted to a fixed 1/8 stratum (every 8th compound)
@@ -263,6 +265,7 @@ func c02Spaces(tier string) []*explore.Space {
 		hostSpace("P4/2xT3", "fixed stratum (every 2nd) of two-predicate and nested-predicate hosts x T(<=3)", p4q, t3, "C02"),
 		hostSpace("P5/3xT3", "fixed stratum (every 3rd) of: existence of two-step paths over all 144 axis pairs, paths with a nested predicate on the last step x T(<=3)", strideCases(p5, 3), t3, "C02"),
 		hostSpace("P6/2xT3", "fixed stratum (every 2nd) of comparisons with two candidate-dependent operands x T(<=3)", strideCases(p6, 2), t3, "C02"),
+		hostSpace("P1/4xDeep6", "fixed stratum (every 4th) of step[atom] x spine documents of depth 4..6", strideCases(p1, 4), func() []*doc.Tree { return uniDeep(6) }, "C02"),
 	}
 }
 
@@ -287,7 +290,7 @@ func init() {
 		ID: "C02", Level: "exploration",
 		Rule: "every predicated step of named finite slices (hosts: all step forms, prefixes, parenthesised hosts; predicates: path existence over 12 axes, =/!= literals, numeric relations, count/contains/starts-with/local-name, not/and/or, two predicates, nesting depth 2) is evaluated on every document of the universe from every context node and compared as a node set with the reference; non-trivial = the predicates keep a strict non-empty subset of the host's candidates; distinct = distinct expressions with a non-trivial case",
 		Assumptions:    []string{"hand-written reference evaluator", "lawful NodeNavigator", "bounded trees and predicate nesting <= 2"},
-		Budget:         budget(55*time.Second, 15*time.Minute),
+		Budget:         budget(90*time.Second, 15*time.Minute),
 		MinRefOutcomes: 2,
 		Spaces:         c02Spaces,
 	})
